@@ -132,6 +132,9 @@ inductive Stmt where
       -- appended to the variable `fn.log` — what the callback was given
   | panicS                                          -- `panic(…)`
   | setU (name : String) (idx e : Expr)             -- `name[idx] = e` for a `[]uint64` / `[N]uint32` variable
+  | setLenFrom (dst src : String) (e : Expr)
+      -- `dst.tape.Tape = src.tape.Tape[:e]` for two views of one tape (Go checks `e` against the capacity of `src`'s
+      -- slice; only the length is modelled, so this is stricter)
   | oracle (target name : String)
       -- `target = name(…)` for a function known only by contract to return *some* uint64 (`runtime.memhash`, seeded
       -- per process): the answer is the next element of the variable `name.answers` (a `Val.u64s`)
@@ -783,6 +786,14 @@ def exec1 (funs : String → Option FunDef) : (fuel : Nat) → Stmt → St → O
     | .val (.int k) =>
       (match s.env.get (base ++ ".lim") with
        | some (.int lim) => if 0 ≤ k ∧ k ≤ lim then .normal { s with env := s.env.set (base ++ ".lim") (.int k) } else .panic
+       | _ => .stuck "lim")
+    | .val _ => .stuck "slice bound type"
+    | o => ofE o
+  | fuel, .setLenFrom dst src e, s =>
+    match evalE s e with
+    | .val (.int k) =>
+      (match s.env.get (src ++ ".lim") with
+       | some (.int lim) => if 0 ≤ k ∧ k ≤ lim then .normal { s with env := s.env.set (dst ++ ".lim") (.int k) } else .panic
        | _ => .stuck "lim")
     | .val _ => .stuck "slice bound type"
     | o => ofE o
